@@ -73,17 +73,26 @@ package recordio
 //@   ensures r0 == w.currentOffset
 //@   modifies nothing
 
+// the V4 record header: marker (3 bytes), nil flag, two minimal varints for the lengths, minimal varint of the CRC-32C
+//@ func fillRecordHeaderV4
+//@   props C04 C20 C15
+//@   requires len(bytes) >= 36
+//@   ensures [header-length] 4 + uvlen(payloadSizeUncompressed) + uvlen(payloadSizeCompressed) + 1 <= len(r0) && len(r0) <= 4 + uvlen(payloadSizeUncompressed) + uvlen(payloadSizeCompressed) + 10 && 5 <= len(r0) && len(r0) <= 36
+//@   ensures [header-is-a-prefix-of-the-cache] arr(r0) == arr(bytes) && off(r0) == off(bytes)
+//@   modifies bytes[*], hsum(*)
+//@   safety on
+
 //@ func writeRecordHeaderV4
-//@   assumed
-//@   requires writer.bufWriter != nil
+//@   props C04 C20 C15
+//@   requires writer.bufWriter != nil && len(writer.recordHeaderCache) >= 36
 //@   ensures r1 == nil ==> 5 <= r0 && r0 <= 36 && bwPos(writer.bufWriter) == old(bwPos(writer.bufWriter)) + r0
 //@   ensures r1 != nil ==> r0 == 0
-//@   modifies bwPos(writer.bufWriter), bwFlushed(writer.bufWriter), writer.recordHeaderCache[*]
+//@   modifies bwPos(writer.bufWriter), bwFlushed(writer.bufWriter), writer.recordHeaderCache[*], hsum(*)
 
 //@ func (*FileWriter).Write
 //@   props C04 C15 C20 C07
 //@   replay file_writer_programs
-//@   requires w.bufWriter != nil && (w.compressor != nil ==> w.bufferPool != nil) && w.file != nil
+//@   requires w.bufWriter != nil && (w.compressor != nil ==> w.bufferPool != nil) && w.file != nil && len(w.recordHeaderCache) >= 36
 //@   requires w.currentOffset < 4611686018427387904 && len(record) < 4611686018427387904
 //@   ensures [returns-start-offset] r1 == nil ==> r0 == old(w.currentOffset) && w.currentOffset > old(w.currentOffset)
 //@   ensures [failed-write-keeps-offset] r1 != nil ==> w.currentOffset == old(w.currentOffset) && w.largestOffset == old(w.largestOffset)
@@ -95,7 +104,7 @@ package recordio
 //@        w.currentOffset == old(w.currentOffset) + callres(writeRecordHeaderV4, 0, 0) + (w.compressor != nil ? len(callres(CompressionI.CompressWithBuf, 0, 0)) : len(record))
 //@   call 0 of writeRecordHeaderV4: assert [C20,C04:header-carries-the-record-lengths] arg1 == len(record) && arg3 == isnil(record) &&
 //@        (w.compressor == nil ==> arg2 == 0)
-//@   modifies w.currentOffset, w.largestOffset, bwPos(w.bufWriter), bwFlushed(w.bufWriter), w.recordHeaderCache[*]
+//@   modifies w.currentOffset, w.largestOffset, bwPos(w.bufWriter), bwFlushed(w.bufWriter), w.recordHeaderCache[*], hsum(*)
 
 //@ func (*FileWriter).Seek
 //@   props C04 C15 C20
@@ -111,7 +120,7 @@ package recordio
 
 //@ func (*FileWriter).WriteSync
 //@   props C07 C02 C04
-//@   requires w.bufWriter != nil && (w.compressor != nil ==> w.bufferPool != nil) && w.file != nil
+//@   requires w.bufWriter != nil && (w.compressor != nil ==> w.bufferPool != nil) && w.file != nil && len(w.recordHeaderCache) >= 36
 //@   requires w.currentOffset < 4611686018427387904 && len(record) < 4611686018427387904
 //@   exit [C07,C02:flushed-and-synced-before-return] r1 == nil ==> called(FileWriter.Write, 0) && callres(FileWriter.Write, 0, 1) == nil &&
 //@        called(WriteSeekerCloserFlusher.Flush, 0) && callres(WriteSeekerCloserFlusher.Flush, 0, 0) == nil &&
